@@ -37,12 +37,24 @@ Record qobs := QObs {
   q_totals : list Z;                (* pagination.total of the first page of the four, when requested *)
   q_adata : option Z }.             (* AccountData(q_acct): None = error, Some 0 = "", Some v *)
 
+(** an expiration-queue entry as read from the store: time, account, name key (the name whose
+    GetNameKeyBytes the key carries), value *)
+Definition qent := (Z * N * string * Z)%type.
+Definition qent_eqb (x y : qent) : bool :=
+  let '(t1, a1, n1, v1) := x in let '(t2, a2, n2, v2) := y in
+  (t1 =? t2) && N.eqb a1 a2 && String.eqb n1 n2 && (v1 =? v2).
+Definition qmem (x : qent) (l : list qent) : bool := existsb (qent_eqb x) l.
+Definition queue_same (x y : list qent) : bool :=
+  forallb (fun e => qmem e y) x && forallb (fun e => qmem e x) y &&
+  Nat.eqb (List.length x) (List.length y).
+
 Record obs := Obs {
   o_ok : bool;                      (* the operation was accepted *)
   o_recs : list orec;               (* all attributes of all holders (keeper dump) *)
   o_accts : list (list N);          (* per name of the universe: AccountsByAttribute *)
   o_owners : list (option nrec);    (* per name of the universe: GetRecordByName *)
   o_maxlen : Z;                     (* Params.MaxValueLength *)
+  o_queue : list qent;              (* the raw expiration queue (store range 0x04), decoded *)
   o_q : qobs }.
 
 (** the constant part of a history *)
@@ -155,7 +167,7 @@ Definition obs_same (x y : obs) : bool :=
   recs_same (o_recs x) (o_recs y) &&
   list_eqb accts_same (o_accts x) (o_accts y) &&
   list_eqb (opt_eqb nrec_eqb) (o_owners x) (o_owners y) &&
-  (o_maxlen x =? o_maxlen y).
+  (o_maxlen x =? o_maxlen y) && queue_same (o_queue x) (o_queue y).
 
 (** only the owner's add / update / delete (and name deletion) is accepted; names are identified
     by their normal form, whatever the spelling used in the request.  PurgeAttribute as a direct
@@ -266,12 +278,56 @@ Definition prop_core (p : params) (names : list string) (prev : obs) (now : Z) (
 Definition next_now (now : Z) (o : op) (ok : bool) : Z :=
   match o with OBlock dt _ => if ok then now + dt else now | _ => now end.
 
-Definition prop_step (p : params) (names : list string) (prev : obs) (now : Z) (o : op) (cur : obs) : list string :=
-  prop_core p names prev now o cur ++ p_queries names (next_now now o (o_ok cur)) cur.
+(** every stored expiration has its entry in the raw queue — otherwise no later sweep can find
+    the attribute ([C16_store_well_formed] on the model) *)
+Definition p_queue (cur : obs) : bool :=
+  forallb (fun r => match oexp r with
+                    | Some e => qmem (e, oacct r, ank (oname r), oval r) (o_queue cur)
+                    | None => true
+                    end) (o_recs cur).
+
+(** a run of consecutive accepted blocks: the observation before the first of them, the time at
+    which the first began, the sum of the sweep limits so far, and whether one of them had no
+    limit.  The clause of [C16_expired_gone_within_blocks_any_limits], evaluated on observations
+    only: once some block of the run had no limit, or the limits add up to the number of
+    attributes (present before the run) whose expiration has passed by now, every attribute that
+    had expired when the run's FIRST block began is gone. *)
+Record runst := { r_start : obs; r_t1 : Z; r_cap : Z; r_unb : bool }.
+Definition run_next (run : option runst) (prev : obs) (now : Z) (o : op) (ok : bool) : option runst :=
+  match o with
+  | OBlock dt limit =>
+      if ok && negb (dt <? 0) && negb (limit <? 0) then
+        match run with
+        | Some r => Some {| r_start := r_start r; r_t1 := r_t1 r; r_cap := r_cap r + limit;
+                            r_unb := r_unb r || (limit =? 0) |}
+        | None => Some {| r_start := prev; r_t1 := now + dt; r_cap := limit; r_unb := limit =? 0 |}
+        end
+      else None
+  | _ => None
+  end.
+Definition p_run (run : option runst) (tnow : Z) (cur : obs) : bool :=
+  match run with
+  | None => true
+  | Some r =>
+      let n := List.length (filter (expired_at tnow) (o_recs (r_start r))) in
+      if r_unb r || (Z.of_nat n <=? r_cap r)
+      then forallb (fun x => negb (expired_at (r_t1 r) x) || negb (has_key cur (okey x))) (o_recs (r_start r))
+      else true
+  end.
+
+Definition prop_step (p : params) (names : list string) (prev : obs) (now : Z) (o : op) (cur : obs)
+                     (run : option runst) : list string :=
+  prop_core p names prev now o cur ++
+  tag (p_queue cur) "prop:stored_expiration_has_queue_entry" ++
+  tag (p_run run (next_now now o (o_ok cur)) cur) "prop:expired_gone_within_blocks" ++
+  p_queries names (next_now now o (o_ok cur)) cur.
 
 (** *** model against implementation *)
 Definition model_owners (names : list string) (s : state) : list (option nrec) :=
   map (fun n => option_map to_nrec (get_record idh (s_names s) n)) names.
+
+Definition model_queue (s : state) : list qent :=
+  map (fun x : entry => let '(e, (a, n, v)) := x in (e, a, n, v)) (s_queue s).
 
 Definition corr_step (cfg : config) (accts : list N) (names : list string) (s' : state) (ok : bool) (cur : obs)
   : list string :=
@@ -283,6 +339,7 @@ Definition corr_step (cfg : config) (accts : list N) (names : list string) (s' :
       "corr:accounts_by_attribute" ++
   tag (list_eqb (opt_eqb nrec_eqb) (model_owners names s') (o_owners cur)) "corr:name_record" ++
   tag (s_maxlen s' =? o_maxlen cur) "corr:max_value_length" ++
+  tag (queue_same (model_queue s') (o_queue cur)) "corr:expiration_queue" ++
   tag (recs_same m1 (List.concat (q_attrs q))) "corr:query_attributes" ++
   tag (recs_same m2 (List.concat (q_attr q))) "corr:query_attribute" ++
   tag (recs_same m3 (List.concat (q_scanned q))) "corr:query_scan" ++
@@ -290,15 +347,18 @@ Definition corr_step (cfg : config) (accts : list N) (names : list string) (s' :
   tag (opt_eqb Z.eqb m5 (q_adata q)) "corr:query_account_data".
 
 (** one item per step: everything the per-step checker needs *)
-Record item := { i_prev : obs; i_now : Z; i_op : op; i_cur : obs; i_model : state; i_mok : bool }.
+Record item := { i_prev : obs; i_now : Z; i_op : op; i_cur : obs; i_model : state; i_mok : bool;
+                 i_run : option runst }.
 
-Fixpoint items (cfg : config) (s : state) (prev : obs) (now : Z) (steps : list (op * obs)) : list item :=
+Fixpoint items (cfg : config) (s : state) (prev : obs) (now : Z) (run : option runst)
+               (steps : list (op * obs)) : list item :=
   match steps with
   | [] => []
   | (o, cur) :: rest =>
       let '(s', ok) := step cfg s o in
-      {| i_prev := prev; i_now := now; i_op := o; i_cur := cur; i_model := s'; i_mok := ok |}
-      :: items cfg s' cur (next_now now o (o_ok cur)) rest
+      let run' := run_next run prev now o (o_ok cur) in
+      {| i_prev := prev; i_now := now; i_op := o; i_cur := cur; i_model := s'; i_mok := ok; i_run := run' |}
+      :: items cfg s' cur (next_now now o (o_ok cur)) run' rest
   end.
 
 Definition empty_q : qobs := QObs 0%N "" "" 0 [] [] [] [] [] None.
@@ -307,23 +367,35 @@ Definition empty_q : qobs := QObs 0%N "" "" 0 [] [] [] [] [] None.
     checker does not look at it) *)
 Definition model_obs (cfg : config) (accts : list N) (names : list string) (s : state) (ok : bool) (q : qobs) : obs :=
   Obs ok (map orec_of (s_recs s)) (map (fun n => accounts_by_attribute s n accts) names)
-      (model_owners names s) (s_maxlen s) q.
+      (model_owners names s) (s_maxlen s) (model_queue s) q.
 
 (** the observation of the initial state as the model sees it; the case carries the
     implementation's ([o0], the first step's [prev]) *)
 Definition model_obs0 (cfg : config) (accts : list N) (names : list string) (s : state) : obs :=
   model_obs cfg accts names s true empty_q.
 
+(** The verdict of a history names its first failing step.  The prop: tags do not involve the
+    model, so when that first failing step shows only a disagreement between model and
+    implementation (corr: tags), the property checker alone is ALSO run over the whole history and
+    the first step at which it fails is reported as well: a divergence must not hide a later
+    concrete violation of the property. *)
+Definition is_prop_tag (t : string) : bool := String.prefix "prop:" t.
+
 Definition check (c : case) : list string :=
   match c with
   | History t0 d accts names o0 steps =>
       let cfg := mk_config d in
       let s0 := init cfg t0 in
+      let its := items cfg s0 o0 t0 None steps in
+      let prop it := prop_step (c_params cfg) names (i_prev it) (i_now it) (i_op it) (i_cur it) (i_run it) in
+      let first := first_failure
+                     (fun it => corr_step cfg accts names (i_model it) (i_mok it) (i_cur it) ++ prop it) 0%N its in
       tag (obs_same (model_obs0 cfg accts names s0) o0) "corr:initial_state" ++
-      first_failure
-        (fun it => corr_step cfg accts names (i_model it) (i_mok it) (i_cur it) ++
-                   prop_step (c_params cfg) names (i_prev it) (i_now it) (i_op it) (i_cur it))
-        0%N (items cfg s0 o0 t0 steps)
+      first ++
+      match first with
+      | [] => []
+      | _ => if existsb is_prop_tag first then [] else first_failure prop 0%N its
+      end
   end.
 
 Definition check_all := check_list check.
